@@ -15,8 +15,50 @@ func init() { register("C10", propC10); register("C17", propC17) }
 // runBounds proves every byte-sequence index/slice obligation of the listed functions.
 func runBounds(c *Ctx, rule string, fns []*ssa.Function) int {
 	n := 0
+	provers := map[*ssa.Function]*bprover{}
 	for _, fn := range fns {
-		p := newBProver(c.W, fn)
+		provers[fn] = newBProver(c.W, fn)
+	}
+	// preconditions of helpers: a signed integer parameter is assumed >= 0 in
+	// the callee when every call site (all of them inside the analysed set)
+	// proves its argument >= 0.  Two rounds, so that a helper's helper sees
+	// the facts established for its caller.
+	res := NewResolver(c.W)
+	for round := 0; round < 2; round++ {
+		for _, fn := range fns {
+			p := provers[fn]
+			for pi, par := range fn.Params {
+				if !isIntType(par.Type()) || isUnsigned(par.Type()) {
+					continue
+				}
+				callers := res.CallersOf(fn)
+				if len(callers) == 0 {
+					continue
+				}
+				all := true
+				for _, cs := range callers {
+					pc := provers[cs.Parent()]
+					args := cs.Common().Args
+					if pc == nil || cs.Common().IsInvoke() || pi >= len(args) {
+						all = false
+						break
+					}
+					arg := args[pi]
+					if !pc.proveAt(func(at *ssa.BasicBlock) lin { return pc.val(arg, at) }, cs.Block()) {
+						all = false
+						break
+					}
+				}
+				key := "param>=0:" + par.Name()
+				if all && !p.axioms[key] {
+					p.axioms[key] = true
+					p.global = append(p.global, fact{atomLin(p.id(par)), "every call site passes a non-negative " + par.Name()})
+				}
+			}
+		}
+	}
+	for _, fn := range fns {
+		p := provers[fn]
 		ord := map[string]int{}
 		for _, o := range p.obligations() {
 			n++
@@ -51,8 +93,22 @@ func propC10(c *Ctx) {
 	rscan := w.Fn("dig", "(*Result).Scan")
 	res := NewResolver(w)
 
-	c.Rule("R10.1", "every index/slice on log data is proven in range from the guards present (words read from the data are arbitrary)", 10)
-	n := runBounds(c, "R10.1", []*ssa.Function{scan, w.Fn("bint", "Decode")})
+	c.Rule("R10.1", "every index/slice on log data is proven in range from the guards present (words read from the data are arbitrary)", 6)
+	// the decoder = scan, bint.Decode and whatever helpers of dig/bint scan reaches that touch byte sequences
+	decFns := []*ssa.Function{scan, w.Fn("bint", "Decode")}
+	for fn := range res.Reachable(scan) {
+		if fn == scan || fn == decFns[1] || fn.Pkg == nil || fn.Blocks == nil {
+			continue
+		}
+		if pp := fn.Pkg.Pkg.Path(); pp != modPath+"/dig" && pp != modPath+"/bint" {
+			continue
+		}
+		if len(newBProver(w, fn).obligations()) > 0 {
+			decFns = append(decFns, fn)
+		}
+	}
+	sortFuncs(decFns[2:])
+	n := runBounds(c, "R10.1", decFns)
 	c.Stats["bounds_obligations"] = n
 	c.Assume("integer additions of a position bounded by len(input) and a type-derived size do not overflow int (slice lengths are < 2^62)")
 
